@@ -159,6 +159,9 @@ ArgsLoop:
 
 		if len(attribContents) > 0 {
 			scanner := bufio.NewScanner(bytes.NewReader(attribContents))
+			// No line may be too long for the scanner: it would end
+			// the loop and drop the rest of the file.
+			scanner.Buffer(nil, len(attribContents)+1)
 			for scanner.Scan() {
 				line := scanner.Text()
 				fields := strings.Fields(line)
